@@ -2,12 +2,13 @@ SPEC = {
     "bins": [
         {"name": "c11", "pkg": "./zz_verif/c11", "run": "^TestC11Seq", "shards": {"quick": 1, "thorough": 8}},
         {"name": "c11conc", "pkg": "./zz_verif/c11", "run": "^TestC11Conc", "race": True, "shards": {"quick": 4, "thorough": 16}},
+        {"name": "c11cold", "pkg": "./zz_verif/c11cold", "run": "^TestC11Cold", "race": True, "shards": {"quick": 8, "thorough": 16}},
     ],
     "rule": "(a) sequential histories: rapid draws call sequences over a pool of library objects (group elements/scalars of the 4 groups, Goldilocks points/scalars, BLS12-381 G1/G2/scalars incl. pairings, FourQ points, "
             "polynomial / secret-sharing objects, P-384 big-integer API) with deliberate aliasing (receiver = operand, equal operands, operands returned by constructors) and 'decode into a used object' steps; every call is replayed on fresh objects decoded "
             "from the operands' model bytes, and after every step every pool object must serialise to its model and every constructor must return what it returned at process start; a table of 35 key types is decoded repeatedly into one object with uses in between and compared with a fresh decode. "
             "(b) concurrency (-race build): per plan a freshly unmarshalled key / scheme / suite is used by 2..16 goroutines behind a barrier (sign, verify, encapsulate, decapsulate, Public(), HPKE setup/open, OPRF evaluate/finalize, threshold-RSA Sign, table-based multiplications, separately constructed generators); "
-            "each result must equal the same call made alone on an independent copy and the race detector must stay silent. non-trivial = history with an aliased call, a decode into a used object, a use between two decodes, or a concurrent plan; distinct by FNV-64 of the history / (plan kind, trial)",
+            "each result must equal the same call made alone on an independent copy and the race detector must stay silent; 8 cold-start scenarios run in fresh processes in which the first use of a package (hpke, group, oprf, bls, kem, sign, xof/expander, curves) is made by 16 goroutines at once, so that lazily initialised package-level data is hit at the only moment it can race. non-trivial = history with an aliased call, a decode into a used object, a use between two decodes, or a concurrent plan; distinct by FNV-64 of the history / (plan kind, trial)",
     "assumptions": COMMON_ASSUME + ["the harness does not own the Go scheduler: an interleaving that needs one precise preemption point may be missed; race reports are attributed to the first circl function of the report",
                                     "decode(encode(x)) == x for the objects in the pool (that is property C09's subject)"],
     "budget": {"quick": 900, "thorough": 5400},
